@@ -79,6 +79,11 @@ func c07List(tier string) []c07Case {
 			}
 		}
 	}
+	// over the shipped websocket transport: the cancel lands while a send of the stream is half-way
+	// onto the socket
+	for k := 0; k < tierN(tier, 4, 24); k++ {
+		out = append(out, c07Case{c07Scn{"websocket-send-half-written", "bidi", 1, 0, 0}, []string{"cancel", "deadline"}[k%2], 0, []int{4, 16, 2}[k%3], "none"})
+	}
 	return out
 }
 
@@ -122,7 +127,11 @@ func c07Progs(sc c07Scn) (cops, hops []Op) {
 
 func c07Run(tier string, seed int64, idx int) *core.Result {
 	c := c07List(tier)[idx]
-	res := &core.Result{Verdict: core.Held, Sample: c, Sig: fmt.Sprintf("%+v", c)}
+	res := &core.Result{Verdict: core.Held, Sample: c, Sig: fmt.Sprintf("%+v/%d", c, idx)}
+	if c.Scn.Name == "websocket-send-half-written" {
+		c07WSCancel(tier, seed, idx, c, res)
+		return res
+	}
 	setGMP(c.GMP)
 	h := bed.NewHooks()
 	if c.Plan == "jitter" {
@@ -350,7 +359,7 @@ func init() {
 		Run:   c07Run,
 		Exhaustive: func(string) bool { return true },
 		RequiredStats: func(string) []string {
-			return []string{"cancellations_checked", "resets_observed", "handler_contexts_checked", "stream_completed_or_failed_at_open"}
+			return []string{"cancellations_checked", "resets_observed", "handler_contexts_checked", "stream_completed_or_failed_at_open", "ws_cancel_mid_write_cases"}
 		},
 		Assumptions: []string{"exhaustive = every cancel position of every scenario's wire trace; schedules between positions are sampled"},
 	})
